@@ -168,7 +168,12 @@ pub fn check(c: &Case, shard: usize, stats: &mut (bool, bool)) -> Vec<Fail> {
                             let other = &users[(k + 1) % users.len()];
                             (users[k].uid.clone(), other.password.clone(), !users[k].removed && other.password == users[k].password)
                         }
-                        _ => ("00000000-0000-4000-8000-000000000000".to_string(), users[k].password.clone(), false),
+                        // an unknown uid verifies with nothing: some user's password, the empty password, a short one
+                        _ => (
+                            "00000000-0000-4000-8000-000000000000".to_string(),
+                            match (kind / 4) % 3 { 0 => users[k].password.clone(), 1 => String::new(), _ => "x".to_string() },
+                            false,
+                        ),
                     };
                     let got = p.verify(&uid, &pw);
                     if got != want {
